@@ -344,6 +344,21 @@ def rule_r5_r6(rep, program: Program):
         r5.inst({"class": k.name, "projection": repr(P)[:160], "gram word": list(gword), "velocity operator": list(A), "J A P reduces to": repr(res)[:120]})
         if not res.is_zero():
             r5.violate(PROP, f"{f.qualname}:JAP={res!r}"[:170], f"J @ dh2_dmom-operator @ projection does not vanish for {k.name}: it reduces to {res!r}; projected momenta are not in the cotangent space (J M^-1 p != 0)", node=f.node, file=f.file)
+        # both returns of the inner product denote J1 @ M @ J2^T (J2 defaulting to J1)
+        for n in iret:
+            c = n.value
+            if not (isinstance(c, ast.Call) and c.args):
+                continue
+            w = exi.ev(ip, c.args[0], {})
+            p1, pm_, p2 = ip.params[1], ip.params[2], ip.params[3] if len(ip.params) > 3 else None
+            if len(w.t) != 1:
+                raise AnalysisError(f"{ip.qualname}: inner product is not a single product")
+            (ww, wc), = w.t.items()
+            second = ww[2][:-2] if len(ww) == 3 and isinstance(ww[2], str) and ww[2].endswith(".T") else None
+            ok = len(ww) == 3 and ww[0] == p1 and ww[1] == pm_ and second in (p1, p2) and wc.equals(Rat.const(1))
+            r5.inst({"class": k.name, "inner product": list(ww), "ok": ok})
+            if not ok:
+                r5.violate(PROP, f"{ip.qualname}:product:{list(ww)}"[:150], f"jacob_constr_inner_product computes {list(ww)} (coefficient {wc!r}) instead of jacob_constr_1 @ inner_product_matrix @ jacob_constr_2.T: the Gram matrix / Newton system of the projection is wrong", node=n, file=ip.file)
         # R6
         sm = k.resolve("sample_momentum")
         rets = [n for n in ast.walk(sm.node) if isinstance(n, ast.Return)]
